@@ -56,7 +56,7 @@ Lemma create_offset_vector_valid n Sc st ety refs vs ref e st' :
   st_ok st -> ma_ok st -> (ety = OString \/ exists t, ety = OTable t) ->
   Forall2 (fun r v => e_start st <= r < 0 /\ valid n Sc st (lvl_align st) ety r v) refs vs ->
   create_offset_vector st refs = Some (ref, e, st') -> small st' ->
-  step st st' /\ e_start st' = ref /\ e_end st' = e_end st /\ vcache st' = vcache st /\ ref mod 4 = 0 /\
+  step st st' /\ e_start st' = ref /\ ref < e_start st /\ e_end st' = e_end st /\ vcache st' = vcache st /\ ref mod 4 = 0 /\
   valid n Sc st' (lvl_align st') (offvec_ty ety) ref (VOffVec vs).
 Proof.
   intros Hok Hma Hety Hch E Hsm. unfold create_offset_vector in E.
@@ -66,7 +66,7 @@ Proof.
   remember (set_min_align st 4) as st1 eqn:Hst1e. clear Hst1e.
   pose proof (lenZ_nonneg refs) as Hl0.
   set (vs_ := u32 (lenZ refs * 4)) in E. set (pad := front_pad st1 vs_ 4) in E.
-  destruct (step_emit_front _ _ _ _ _ (s_ok _ _ Hst1) (s_ma _ _ Hst1) E Hsm) as (Hst & Hr & Hs & He & Hm & Hc & Hmem & _).
+  destruct (step_emit_front _ _ _ _ _ (s_ok _ _ Hst1) (s_ma _ _ Hst1) E Hsm) as (Hst & Hr & Hs & He & Hm & Hc & Hmem & Hlt).
   pose proof (emitted_small st1 st' ref _ (s_ok _ _ Hst) Hsm Hs (s_ok _ _ Hst1) Hr) as Hsmall.
   rewrite !lenZ_app, lenZ_le32, patch_offsets_len in Hsmall.
   pose proof (lenZ_nonneg (zeros pad)) as Hz0.
@@ -86,7 +86,7 @@ Proof.
   rewrite Hbase in Hmem.
   assert (Href4 : ref mod 4 = 0).
   { rewrite Hr. pose proof (front_pad_aligned st1 (lenZ refs * 4) 4 pow2_4) as Ha. rewrite <- Hpe in Ha. lia. }
-  split; [exact (step_trans _ _ _ Hst1 Hst)|]. split; [exact Hs|]. split; [lia|]. split; [congruence|].
+  split; [exact (step_trans _ _ _ Hst1 Hst)|]. split; [exact Hs|]. split; [lia|]. split; [lia|]. split; [congruence|].
   split; [exact Href4|].
   assert (Hdiv4 : (4 | lvl_align st')) by (apply div4_lvl; exact (s_ma _ _ Hst)).
   apply mem_has_app in Hmem. destruct Hmem as [Hm2 Hm3]. apply mem_has_app in Hm3. destruct Hm3 as [Hm3 _].
